@@ -127,6 +127,15 @@ static Index AE_invp(const struct AdjEnvelope *self, Index i)
   __CPROVER_assume(1 <= r && r <= self->parameters && (i == self->gv_i0) == (r == self->gv_p0));
   return r;
 }
+/* ordering.perm(k): the unknown that sits at position k of the permuted numbering; for the ghost position p0 it is i0
+   (the inverse map of AE_invp at the ghost pair).  Present so that code which consults perm() still goes through the unit. */
+static Index AE_perm(const struct AdjEnvelope *self, Index k)
+{
+  __CPROVER_assert(1 <= k && k <= self->parameters, "ordering.perm: a position of the permuted numbering");
+  Index r = nondet_Index();
+  __CPROVER_assume(1 <= r && r <= self->parameters && (k == self->gv_p0) == (r == self->gv_i0));
+  return r;
+}
 /* envelope.diagonal(k), k in the PERMUTED numbering; row p0 is zero iff gv_z0 */
 static Float AE_env_diagonal(const struct AdjEnvelope *self, Index k)
 {
